@@ -41,6 +41,11 @@ class MG1Uniform(distributions.Uniform):
     def sample(self, sample_shape=torch.Size()):
         return self._to_parameters(super().sample(sample_shape))
 
+    @property
+    def mean(self):
+        # Expectation of the parameters (what sample() returns), not of the underlying uniform noise.
+        return self._to_parameters(super().mean)
+
     def _to_parameters(self, noise):
         A_inv = torch.tensor([[1.0, 1, 0], [0, 1, 0], [0, 0, 1]])
         return noise @ A_inv
